@@ -848,7 +848,10 @@ type closeAddrRec struct {
 func filterStacks(all string) string {
 	var keep []string
 	for _, g := range strings.Split(all, "\n\n") {
-		if strings.Contains(g, "internal/client.") || strings.Contains(g, "batchsim.") && !strings.Contains(g, "batchsim.(*world).main") {
+		if strings.Contains(g, "batchsim.(*world).main") || strings.Contains(g, "batchsim.Engine.Execute") {
+			continue // this goroutine and the simulator loop
+		}
+		if strings.Contains(g, "internal/client.") || strings.Contains(g, "batchsim.") || strings.Contains(g, "google.golang.org/grpc") {
 			if len(g) > 1500 {
 				g = g[:1500] + "..."
 			}
